@@ -663,8 +663,11 @@ def main(prop=PROP, explain=False):
         "translator translators/effectors.py renders the accepted Python subset faithfully (fail-closed otherwise)",
         "custom effectors installed through set_effector are outside the property (five documented expressions)",
     ]
-    chk.trusted = ["translator: translators/effectors.py (Python ast -> coq/gen/EffectorsGen.v, regenerated on this run)"]
-    chk.build(translators=["effectors"])
+    chk.trusted = ["translator: translators/effectors.py (Python ast -> coq/gen/EffectorsGen.v, regenerated on this run)",
+                   "translator: translators/enforce.py (decision kernel of CoreEnforcer.enforce_ex -> coq/gen/EnforceGen.v; matcher "
+                   "construction/evaluation, effector selection and logging abstracted) + interpreter coq/theories/EnfLang.v; "
+                   "EnforceSrcTie.v proves the regenerated kernel = Enforce.enforce_ex for every effector triple, configuration and rule list"]
+    chk.build(translators=["effectors", "enforce"])
     if chk.replay_file:
         return replay(chk, explain)
     if chk.tier == "thorough":
